@@ -93,7 +93,7 @@ def run(ctx):
         okd = okd and sw[0]["argv"][0] is mg[0]["result"]
     ctx.add("C17.R2", root + "#delegates-to-core", okd,
             "the generator must be MessageGenerator::new(measurement, threshold, epoch.as_bytes()) and share_with_local_randomness be called on it; arguments %s" % det, at, sample=det)
-    ctx.add("C17.R2", root + "#error-gives-empty-string", all(Q.consts(Q.leaves(v)) == {""} for v in empties) and len(empties) <= 1,
+    ctx.add("C17.R2", root + "#error-gives-empty-string", all(Q.consts(Q.leaves(v)) <= {""} and not Q.params(Q.leaves(v)) and not Q.rngs(Q.leaves(v)) for v in empties) and len(empties) <= 1,
             "the only other result may be the empty string (on a sharing error)", at)
 
     # ---- group_shares -------------------------------------------------------------------------------------------
